@@ -59,7 +59,10 @@ CLAIM = dict(
           "really cannot reach each other (route_disconnected_is_real); (11) legacy_two_parents_witness: on the "
           "machine of corpus/C03/f3-two-parents-2x4.json the UNFIXED loop (parent searched only inside "
           "lookup[child]) leaves a node with two parent links and an invalid tree, the fixed loop a valid one "
-          "(kernel-evaluated); (12) ROUND 4, several nets in one route() call: the model routeNets runs the loop body "
+          "(kernel-evaluated); sinkAttach_precedence: the model attaches a sink with a RouteEndpointConstraint by exactly "
+          "the constrained route whatever its allocation holds, otherwise one leaf per allocated core (none for an "
+          "empty slice), otherwise one leaf without a route - the expected leaves of every case come from this "
+          "resolution in the model; (12) ROUND 4, several nets in one route() call: the model routeNets runs the loop body "
           "per net and threads nothing but the oracle tape; routeNets_independent: the call succeeds with results rs "
           "iff net by net routeNet on that net's own inputs and its own part of the tape returns rs[i] - no tree, "
           "lookup or leaf is carried over; routeNets_valid: every net of a successful call gets a valid routing tree "
@@ -98,7 +101,11 @@ CLAIM = dict(
           "left behind by the repair are observed on the real code and are not treated as a violation. The harness "
           "also checks the proved facts on the executable model per case (model result valid; model Disconnected "
           "only on a machine the oracle rejects) as a consistency tie between theorems and driver. "
-          "HARDENING CHECKLIST - (1) argument kinds: vertices as int, big int (2^31..2^100), float, str with % and {}, "
+          "SINK KINDS: every vertex (sinks AND the source, several sinks of one net on one chip) is drawn from "
+          "{endpoint constraint present / absent} x {allocation with a non-empty core slice / an empty slice / an "
+          "entry without the core resource / no entry}, slices touching cores 0, 1, 16, 17 and the whole range 0..18 "
+          "(tags sinkkind_*); the unresolved pair (endpoint, slice) is sent to the model, which applies the "
+          "precedence. HARDENING CHECKLIST - (1) argument kinds: vertices as int, big int (2^31..2^100), float, str with % and {}, "
           "bytes, tuples of length 0-3, namedtuple, frozenset, plain object (mixed inside one net); nets as list / tuple "
           "/ generator / one-shot iterator / dict keys view; constraints as list / tuple / generator, with unrelated "
           "constraint kinds and a constraint naming a stranger vertex; a single sink given bare (`sinks : list or "
@@ -153,14 +160,16 @@ THEOREMS = ["link_tables", "validTree_iff", "validTree_connects", "aStar_path", 
             "avoidDeadLinks_valid", "legacy_two_parents_witness",
             "copyAndDisconnect_total", "repairOne_only_disconnected", "route_only_failure",
             "route_succeeds_strongly_connected", "stronglyConnected_complete", "stronglyConnected_iff",
-            "route_disconnected_is_real", "nerNet_leaves_are_dests", "routeNet_valid",
+            "route_disconnected_is_real", "nerNet_leaves_are_dests", "routeNet_valid", "sinkAttach_precedence",
             # round 4: all nets of one route() call
             "routeNets_independent", "routeNetsRun_eq", "routeNets_valid", "routeNets_only_failure"]
 THEOREMS += ['gen_opp']   # translator tie: generated function bodies = model (Props/C03Gen.lean)
 
 RULE = ("machines 1x1..12x12 (incl. 1xN, 2xN), torus / mesh / partly wrapped, 0-30% dead directed links (half of them "
         "dead in one direction only), dead chips; single-net stream: one net per case with fan-out 0-12, sinks on the source chip, "
-        "duplicated sinks, the source vertex as its own sink, cores / no cores / endpoint routes; radius in "
+        "duplicated sinks, the source vertex as its own sink; every vertex's endpoint constraint (present / absent) x "
+        "allocation (non-empty / empty core slice, no core resource, no entry), 20% of the nets with 3-8 sinks of all "
+        "these combinations on one chip, core slices at 0, 1, 16, 17 and 0..18; radius in "
         "{0,1,2,20}; thorough adds every fault map with <= 2 dead directed links (and each single dead chip) on 2x2, "
         "1x3, 2x3, 3x3; LARGE-net stream (200 quick / 4000 thorough): machines 10x10..24x24 (torus / mesh / partly wrapped, "
         "0-3% dead links, 0-3 dead chips), one net with 30-150 sinks drawn from rows, columns, diagonals, spokes out "
@@ -239,18 +248,88 @@ def gen_net(rng, mach):
         place[v] = list(c)
         kinds[v] = gen_kind(rng)
         sinks.append(v)
+    if rng.random() < 0.2:
+        # several sinks on ONE chip mixing every combination of endpoint constraint and allocation
+        c = src if rng.random() < 0.3 else rng.choice(live)
+        combos = all_kind_combinations(rng)
+        rng.shuffle(combos)
+        for kd in combos[:rng.randint(3, 8)]:
+            v = len(place)
+            place[v] = list(c)
+            kinds[v] = kd
+            sinks.append(v)
+        rng.shuffle(sinks)
     return dict(place={str(k): v for k, v in place.items()}, kinds={str(k): v for k, v in kinds.items()},
                 sinks=sinks, radius=rng.choice([0, 1, 2, 20, 20, 20, 3, 64]))
 
 
-def gen_kind(rng):
+CORE_SLICES = [(0, 1), (1, 2), (0, 2), (16, 17), (17, 18), (16, 18), (0, 18), (1, 17)]
+
+
+def gen_slice(rng):
     r = rng.random()
-    if r < 0.2:
-        return [0, 0, 0]
-    if r < 0.8:
-        a = rng.randrange(18)
-        return [1, a, rng.randrange(a + 1, 19)]
-    return [2, rng.randrange(6) if rng.random() < 0.8 else rng.randrange(6, 24), 0]
+    if r < 0.12:
+        a = rng.choice([0, 1, 9, 17, 18])
+        return a, a                                  # an empty slice
+    if r < 0.6:
+        return rng.choice(CORE_SLICES)               # touching cores 0, 1, 16, 17, the whole range
+    a = rng.randrange(18)
+    return a, rng.randrange(a + 1, 19)
+
+
+def gen_endpoint(rng):
+    return rng.randrange(6) if rng.random() < 0.8 else rng.randrange(6, 24)
+
+
+def gen_kind(rng):
+    """what route() is told about a vertex: [0,0,0] no core resource (even vertices: missing from allocations, odd:
+    an empty entry); [1,a,b] cores [a,b) (possibly empty); [2,r,f] RouteEndpointConstraint r with an allocation
+    entry without the core resource (f=0) / no allocation entry at all (f=1); [3,r,a,b] RouteEndpointConstraint r AND
+    cores [a,b) in the allocation"""
+    r = rng.random()
+    if r < 0.15:
+        return [0, rng.randrange(3), 0]
+    if r < 0.6:
+        a, b = gen_slice(rng)
+        return [1, a, b]
+    if r < 0.75:
+        return [2, gen_endpoint(rng), rng.randrange(2)]
+    a, b = gen_slice(rng)
+    return [3, gen_endpoint(rng), a, b]
+
+
+def all_kind_combinations(rng):
+    """{endpoint constraint present / absent} x {non-empty core slice / empty slice / no core resource / vertex
+    missing from allocations}; which of the last two a [0,0,0] vertex gets depends on the parity of its number"""
+    a, b = rng.choice(CORE_SLICES)
+    e = rng.choice([0, 1, 17, 18])
+    return [[1, a, b], [1, e, e], [0, 1, 0], [0, 2, 0], [3, gen_endpoint(rng), a, b], [3, gen_endpoint(rng), e, e],
+            [2, gen_endpoint(rng), 0], [2, gen_endpoint(rng), 1]]
+
+
+def has_core_alloc(kinds):
+    return any(k[0] in (1, 3) for k in kinds.values())
+
+
+def alloc_of_kind(v, kd, core_key):
+    """(allocation entry or None when the vertex is missing from allocations, endpoint route or None)"""
+    if kd[0] == 1:
+        return {core_key: slice(kd[1], kd[2])}, None
+    if kd[0] == 2:
+        return ({} if kd[2] == 0 else None), kd[1]
+    if kd[0] == 3:
+        return {core_key: slice(kd[2], kd[3])}, kd[1]
+    if kd[1] in (1, 2):
+        return ({} if kd[1] == 1 else None), None          # forced: an entry without the core resource / no entry
+    return ({} if v % 2 else None), None
+
+
+def sink_json(v, chip, kd):
+    if kd[0] == 3:
+        return [v, chip[0], chip[1], kd[1], [kd[2], kd[3]]]     # unresolved: the model applies the precedence
+    if kd[0] == 2:
+        return [v, chip[0], chip[1], 2, kd[1], 0]
+    return [v, chip[0], chip[1], kd[0], kd[1], kd[2]]
 
 
 # --------------------------------------------------------------------------------------------
@@ -413,7 +492,7 @@ def vertex_object(i, kind):
 def gen_api(rng, net):
     """how the caller spells the call: argument kinds and calling conventions the API legally accepts"""
     nv = len(net["place"])
-    has_cores = any(k[0] == 1 for k in net["kinds"].values())
+    has_cores = has_core_alloc(net["kinds"])
     api = dict(
         vkinds=[rng.choice(VKINDS) for _ in range(nv)] if rng.random() < 0.7 else ["int"] * nv,
         nets_as=rng.choice(["list", "tuple", "generator", "iter", "dictkeys"]),
@@ -510,19 +589,21 @@ def run_impl(case, env=None):
         class EndpointClass(RouteEndpointConstraint):
             pass
         tags.append("api_constraint_subclass")
-    for v, (k, a, b) in sorted(kinds.items()):
-        if k == 1:
-            new_alloc[vobj[v]] = {core_key: slice(a, b)}
-            if core_key is not Cores:
-                new_alloc[vobj[v]][Cores] = slice((a + 5) % 17, 18)        # a decoy under the default key
-            if api.get("allocations_extra"):
-                new_alloc[vobj[v]][SDRAM] = slice(0, 128)
-        elif k == 2:
-            new_constraints.append(EndpointClass(vobj[v], Routes(a)))
-            new_alloc[vobj[v]] = {}
-        # kind 0: no allocation entry at all for even vertices, an empty one for odd vertices
-        elif v % 2:
-            new_alloc[vobj[v]] = {}
+    for v, kd in sorted(kinds.items()):
+        entry, endpoint = alloc_of_kind(v, kd, core_key)
+        if entry is not None:
+            if core_key in entry:
+                if core_key is not Cores:
+                    entry[Cores] = slice((kd[-2] + 5) % 17, 18)             # a decoy under the default key
+                if api.get("allocations_extra"):
+                    entry[SDRAM] = slice(0, 128)
+            new_alloc[vobj[v]] = entry
+        if endpoint is not None:
+            new_constraints.append(EndpointClass(vobj[v], Routes(endpoint)))
+        tags.append("sinkkind_%s_%s" % ("endpoint" if endpoint is not None else "noendpoint",
+                                        "missing" if entry is None else "nocoreres" if core_key not in entry else
+                                        "emptyslice" if entry[core_key].start == entry[core_key].stop else "cores")
+                    + ("_source" if v == 0 else ""))
     if core_key is not Cores:
         tags.append("api_core_resource_" + cr_mode)
     if api.get("extra_constraints"):
@@ -591,7 +672,7 @@ def run_impl(case, env=None):
     args = [res_arg, nets_arg, machine, cons_arg, place]
     kwargs = {}
     call = api.get("call", "positional")
-    if api.get("allocations") == "omitted" and not any(k[0] == 1 for k in kinds.values()):
+    if api.get("allocations") == "omitted" and not has_core_alloc(kinds):
         tags.append("api_allocations_omitted")
         tail = []
     else:
@@ -771,9 +852,7 @@ def py_strong(mach):
 def sinks_json(net):
     out = []
     for v in net["sinks"]:
-        k, a, b = net["kinds"][str(v)]
-        x, y = net["place"][str(v)]
-        out.append([v, x, y, k, a, b])
+        out.append(sink_json(v, net["place"][str(v)], net["kinds"][str(v)]))
     return out
 
 
@@ -1162,7 +1241,7 @@ def twin_of(rng, step):
     if t.get("api"):
         a = t["api"]
         a["vkinds"] = (a["vkinds"] + ["int"] * len(t["net"]["place"]))[:len(t["net"]["place"])]
-        if any(k[0] == 1 for k in t["net"]["kinds"].values()):
+        if has_core_alloc(t["net"]["kinds"]):
             a["allocations"] = "given"
     return t, what
 
@@ -1384,9 +1463,7 @@ def gen_multi(rng, mach):
 def multi_sinks_json(case, net):
     out = []
     for v in net["sinks"]:
-        k, a, b = case["kinds"][str(v)]
-        x, y = case["place"][str(v)]
-        out.append([v, x, y, k, a, b])
+        out.append(sink_json(v, case["place"][str(v)], case["kinds"][str(v)]))
     return out
 
 
@@ -1432,14 +1509,12 @@ def run_impl_multi(case):
     place = {int(k): tuple(v) for k, v in case["place"].items()}
     kinds = {int(k): v for k, v in case["kinds"].items()}
     allocations, constraints = {}, []
-    for v, (k, a, b) in sorted(kinds.items()):
-        if k == 1:
-            allocations[v] = {Cores: slice(a, b)}
-        elif k == 2:
-            constraints.append(RouteEndpointConstraint(v, Routes(a)))
-            allocations[v] = {}
-        elif v % 2:
-            allocations[v] = {}
+    for v, kd in sorted(kinds.items()):
+        entry, endpoint = alloc_of_kind(v, kd, Cores)
+        if entry is not None:
+            allocations[v] = entry
+        if endpoint is not None:
+            constraints.append(RouteEndpointConstraint(v, Routes(endpoint)))
     objs = []
     for n in case["nets"]:
         objs.append(objs[n["same_as"]] if n["same_as"] is not None else Net(n["source"], list(n["sinks"])))
